@@ -34,6 +34,17 @@ func paramSym(name string, v *Val) ParamSym {
 }
 
 func (e *Eng) runDeferred(st *State, d deferEntry) *State {
+	if d.guard != "" {
+		// conditional defer: run it on the paths where it was registered, skip it on the others
+		run := st.clone()
+		run.path = e.define("p", "Bool", and(st.path, d.guard))
+		skip := st.clone()
+		skip.path = e.define("p", "Bool", and(st.path, not(d.guard)))
+		d2 := d
+		d2.guard = ""
+		out := e.runDeferred(run, d2)
+		return e.merge([]*State{out, skip})
+	}
 	fl, ok := ast.Unparen(d.call.Fun).(*ast.FuncLit)
 	if !ok {
 		// plain deferred call: evaluate as a call now
@@ -297,6 +308,7 @@ func (e *Eng) verifyFunc(fobj *types.Func) {
 			}
 		}
 	}
+	st.vars[e.recObj()] = scalar("false", "Bool", types.Typ[types.Bool])
 	e.oldEnv = env
 	e.indexCalls()
 	e.includeTheories(e.con.Uses)
@@ -394,8 +406,15 @@ func (e *Eng) verifyFunc(fobj *types.Func) {
 		for n, o := range e.ghosts {
 			renv[n] = x.St.vars[o]
 		}
-		renv["panicked"] = scalar(strconv.FormatBool(x.St.recovered), "Bool", nil)
+		if pv, ok := x.St.vars[e.recObj()]; ok {
+			renv["panicked"] = pv
+		} else {
+			renv["panicked"] = scalar("false", "Bool", nil)
+		}
 		for qi, q := range e.con.Ensures {
+			if qi < len(e.con.EnsProp) && e.con.EnsProp[qi] != "" && e.con.EnsProp[qi] != e.propID {
+				continue
+			}
 			g := e.evalSpec(x.St, q, renv, env)
 			e.oblige(x.St, "ensures", fmt.Sprintf("#%d@return%d", qi+1, nret), g.T, x.Pos)
 			e.obls[len(e.obls)-1].Src = e.con.EnsSrc[qi]
